@@ -147,8 +147,8 @@ func prepareRender(c J) (*renderSetup, error) {
 	if jbool(c, "strict") {
 		eng.StrictVariables()
 	}
-	if len(sp.Delims) == 4 && (sp.Delims[0] != "{{" || sp.Delims[1] != "}}" || sp.Delims[2] != "{%" || sp.Delims[3] != "%}") {
-		eng.Delims(sp.Delims[0], sp.Delims[1], sp.Delims[2], sp.Delims[3])
+	if sp.Raw != nil {
+		eng.Delims(sp.Raw[0], sp.Raw[1], sp.Raw[2], sp.Raw[3])
 	}
 	for _, fx := range files {
 		fa, _ := fx.([]any)
